@@ -81,7 +81,7 @@ def sle_trace(rng, tid):
     steps = []
     for n in range(rng.randint(1, 4)):
         T = rng.uniform(250, 450)
-        sol = rng.choice([None, None, 0.001, 0.05, 0.3, 0.9])
+        sol = rng.choice([None, None, None, 0.001, 0.05, 0.3, 0.9, 0., 1.])
         obs = w.sle(T, sol)
         if obs['exc'] != 'none' and steps:
             break           # what a solver object does after a call that raised is not C15's subject (the first call's failure is reported)
